@@ -1084,12 +1084,15 @@ func runModel(seed uint64, n int, out string, rc *Case) {
 			}
 		}
 		// every prefix of a few small valid encodings (systematic truncation)
-		for _, e := range smallEncodings(r.Fork()) {
+		for _, e := range smallEncodings(prng.New(0xb0d)) {
 			for cut := 0; cut <= len(e.b); cut++ {
 				cases = append(cases, Case{Kind: e.kind, Data: hex.EncodeToString(e.b[:cut]), Origin: "prefix:" + e.origin})
 			}
 		}
-		cases = append(cases, morePrefixCases(r.Fork())...)
+		cases = append(cases, morePrefixCases(prng.New(0xb0d))...)
+		cases = append(cases, quoteBoundaryCases()...)
+		cases = append(cases, boundaryCases()...)
+		cases = append(cases, chunkRawCases()...)
 		cases = append(cases, evidenceSystematic()...)
 		// chains nested through EACH child position (leaf / left / right) around and beyond the limit
 		depths := []int{127, 128, 129, 512}
@@ -1140,7 +1143,7 @@ func runModel(seed uint64, n int, out string, rc *Case) {
 		o := runModelCase(c)
 		sum.Evaluations++
 		evj, _ := json.Marshal(c.Ev)
-		key := c.Kind + ":" + c.Data + string(evj) + fmt.Sprint(len(c.Ev), c.Fmt, c.NVals, c.Trailing, c.V, c.BadRoot, c.Key, c.Value, c.Label, c.Lbl, c.Mode) + strings.Join(func() []string {
+		key := c.Kind + ":" + c.Data + string(evj) + fmt.Sprint(len(c.Ev), c.Mode, c.Fmt, c.NVals, c.Trailing, c.V, c.BadRoot, c.Key, c.Value, c.Label, c.Lbl, c.Mode) + strings.Join(func() []string {
 			var s []string
 			for _, e := range c.Entries {
 				if e == nil {
